@@ -257,6 +257,12 @@ def check_scatter_gather(ctx, R):
                 bad_call = bad_call or 'client.gather is not given the incoming future x'
             if not asyn:
                 bad_call = bad_call or 'client.%s is not called with asynchronous=True' % prim
+            for kw in call.keywords:
+                if kw.arg == 'errors' and not (isinstance(kw.value, ast.Constant) and kw.value.value == 'raise'):
+                    bad_call = bad_call or ("client.%s(errors=%s): a task that failed on the cluster no longer raises to the "
+                                            "emitter, the sinks receive made-up values" % (prim, nf(kw.value)))
+                if kw.arg is None:
+                    bad_call = bad_call or 'client.%s is called with **kwargs whose content is not visible' % prim
             if k not in r.awaited_calls:
                 bad_call = bad_call or 'the result of client.%s is not awaited' % prim
             if len(r.emits) != 1:
